@@ -56,15 +56,38 @@ def run(chk):
         e8.check_local_discarded(chk, f)
     # the reference norm is taken before the truncation is applied
     for f in (O.methods["diagonalize_central_"], prog.func(COMP, "_zipper_MpoOBC"), prog.func(COMP, "_zipper_MpoPBC")):
-        old = [x for x in ast.walk(f.node) if isinstance(x, ast.Assign) and A.text(x.targets[0]) == "nSold"]
-        app = [x for x in ast.walk(f.node) if isinstance(x, ast.Assign) and isinstance(x.value, ast.Call) and A.callee_attr(x.value) == "apply_mask"
-               and isinstance(x.targets[0], ast.Tuple)]
-        ok = old and app and A.text(old[0].value) == "S.norm()" and old[0].lineno < app[0].lineno
-        chk.verdict("FF5", (f, old[0] if old else f.node), "nSold = S.norm() before the mask is applied", True if ok else False,
+        # structural: the squared local weight is (N_out / N_ref) ** 2 with N_ref = <S>.norm() taken before the statement that truncates S
+        # (`.., S, .. = mask.apply_mask(..)`) and N_out the norm of S under the complement of the mask (names are read off the code)
+        b_ = A.local_bindings(f.node)
+        cands = []
+        for x in ast.walk(f.node):
+            if isinstance(x, ast.BinOp) and isinstance(x.op, ast.Div) and isinstance(x.left, ast.Name) and isinstance(x.right, ast.Name):
+                cands.append(x)
+        okref = okrel = False
+        site = f.node
+        for d_ in cands:
+            qd = [(st, v) for st, v, k in b_.get(d_.right.id, []) if v is not None]
+            pd = [(st, v) for st, v, k in b_.get(d_.left.id, []) if v is not None]
+            if len(qd) != 1 or len(pd) != 1:
+                continue
+            qst, qv = qd[0]
+            if not (isinstance(qv, ast.Call) and A.callee_attr(qv) == "norm" and isinstance(qv.func.value, ast.Name)):
+                continue
+            sname = qv.func.value.id
+            app = [x for x in ast.walk(f.node) if isinstance(x, ast.Assign) and isinstance(x.value, ast.Call) and A.callee_attr(x.value) == "apply_mask"
+                   and isinstance(x.targets[0], ast.Tuple) and sname in A.assigned_names(x.targets[0])]
+            site = qst
+            from ..core.cfg import CFG as _CFG
+            cfg_ = _CFG(f.node)
+            okref = bool(app) and qst is not app[0] and cfg_.must_pass([app[0]], [qst])
+            ptx = A.text(pd[0][1])
+            okrel = "bitwise_not" in ptx and ".norm()" in ptx and sname in {n_.id for n_ in ast.walk(pd[0][1]) if isinstance(n_, ast.Name)}
+            if okref and okrel:
+                break
+        chk.verdict("FF5", (f, site), "reference norm <S>.norm() taken before the mask is applied", True if okref else False,
                     f"{f.short}: the discarded weight is not normalised by the norm of the *untruncated* Schmidt values")
-        rel = [x for x in ast.walk(f.node) if isinstance(x, ast.Assign) and "nSout / nSold" in A.text(x.value)]
-        chk.verdict("FF5", (f, rel[0] if rel else f.node), rel[0] if rel else "nSout / nSold", True if rel else False,
-                    f"{f.short}: the local discarded weight is not nSout / nSold")
+        chk.verdict("FF5", (f, site), "local weight = |S outside the mask| / |S|", True if okrel else False,
+                    f"{f.short}: the local discarded weight is not (norm of S under the complement of the mask) / (norm of S)")
     chk.rule("P3", "shallow_copy takes over every mutable state field of the MPS (A, pC, factor)", floor=3)
     run_P3(chk)
     # the discarded weight of truncate_/zipper is relative to the *complete* spectrum: the decomposition that produces S must not
@@ -72,7 +95,8 @@ def run(chk):
     for f in (O.methods["diagonalize_central_"], prog.func(COMP, "_zipper_MpoOBC"), prog.func(COMP, "_zipper_MpoPBC")):
         b = A.local_bindings(f.node)
         for st, v, k in b.get("S", []):
-            if isinstance(v, ast.Call) and (A.call_name(v) or "").split(".")[-1] == "svd" and "nSold" in b:
+            if isinstance(v, ast.Call) and (A.call_name(v) or "").split(".")[-1] == "svd" and any(
+                    isinstance(v2, ast.Call) and A.callee_attr(v2) == "norm" and A.text(v2.func.value) == "S" for nm2, ds2 in b.items() for st2, v2, k2 in ds2):
                 partial = [kw for kw in v.keywords if kw.arg is None or kw.arg in ("policy", "D_block", "D_total", "k", "k_block", "tol", "tol_block")]
                 chk.verdict("FF5", (f, st), f"{f.short}: `{A.short(v, 60)}` is a complete decomposition", False if partial else True,
                             f"{f.short}: the decomposition whose spectrum normalises the discarded weight receives "
